@@ -573,3 +573,50 @@ def check_config_forwarding(ck, rule):
                        "DEFAULT configuration (class translation, version, content type of the caller are ignored)"
                        % (q.fn(callee), prov.show(t) if t is not None else "no config", q.fn(fi)), q.loc(fi, node))
     return n
+
+
+def check_execute_outcome(ck, rule):
+    """FutureResult.execute invokes the task exactly once as method(*args, **kwargs), stores the very object it returned
+    with set(...), stores the very exception it raised with raise_exception(...) and re-raises it (shared by C09.3 / C16.6)."""
+    from vlib.flow import Explorer
+    prog = ck.prog
+    fex = prog.func("threadpool", "FutureResult.execute")
+    g = cfg_of(fex)
+    mcalls = [(n, c) for n in g.live_nodes() for c in node_calls(n) if isinstance(c.func, ast.Name) and c.func.id == "method"]
+    ck.require(len(mcalls) == 1, rule, "%s: one call of method" % q.fn(fex), "one call site", "execute has %d call sites of the task" % len(mcalls), q.loc(fex, fex.node))
+    for (n, c) in mcalls:
+        star = [a for a in c.args if isinstance(a, ast.Starred)]
+        dstar = [k for k in c.keywords if k.arg is None]
+        okk = len(star) == 1 and len(c.args) == 1 and len(dstar) == 1 and len(c.keywords) == 1
+        if okk:
+            ta = prov.alts(prov.origin(g, n, star[0].value))
+            tk = prov.alts(prov.origin(g, n, dstar[0].value))
+            okk = ("param", "args") in ta and ("param", "kwargs") in tk
+        ck.require(okk, rule, "%s: `%s`" % (q.fn(fex), dump(c)), "method(*args, **kwargs)", "the task is invoked as `%s`" % dump(c), q.loc(fex, n))
+
+    def on2(node, facts, data):
+        if any(node.id == n.id for (n, _c) in mcalls):
+            data = min(data + 1, 3)
+        return [(facts, data)]
+    ex2 = Explorer(g, on_node=on2, init_data=0)
+    for st in ex2.terminal:
+        nid, facts, cnt = st
+        ck.require(cnt == 1 or (cnt == 0 and nid == g.raise_exit.id), rule, "%s: exit after %d invocation(s)" % (q.fn(fex), cnt),
+                   "exactly one invocation", "execute finishes after %d invocations of the task" % cnt, q.loc(fex, fex.node), ex2.describe_path(st))
+    sets = [(n, c) for n in g.live_nodes() for c in node_calls(n) if dump(c.func) == "self._done_event.set"]
+    rexc = [(n, c) for n in g.live_nodes() for c in node_calls(n) if dump(c.func) == "self._done_event.raise_exception"]
+    ck.require(len(sets) == 1 and len(rexc) == 1, rule, "%s: outcome stored on both branches" % q.fn(fex), "set(result) / raise_exception(ex)",
+               "execute does not store the outcome on both the normal and the exceptional branch", q.loc(fex, fex.node))
+    for (n, c) in sets:
+        t = prov.origin(g, n, c.args[0]) if c.args else None
+        okk = t is not None and t[0] == "call" and t[1] == ("param", "method")
+        ck.require(okk, rule, "%s: `%s`" % (q.fn(fex), dump(c)), "stores the task's return value itself",
+                   "the stored result is %s, not the very object the task returned" % (prov.show(t) if t else "nothing"), q.loc(fex, n))
+    for (n, c) in rexc:
+        t = prov.origin(g, n, c.args[0]) if c.args else None
+        ck.require(t is not None and t[0] == "exc", rule, "%s: `%s`" % (q.fn(fex), dump(c)), "stores the caught exception object",
+                   "the stored exception is %s, not the caught exception object" % (prov.show(t) if t else "nothing"), q.loc(fex, n))
+        hs = [h for h in g.live_nodes() if h.kind == "handler" and any(sub is c for st_ in h.ast.body for sub in ast.walk(st_))]
+        rer = hs and any(isinstance(st_, ast.Raise) and st_.exc is None for st_ in hs[0].ast.body)
+        ck.require(bool(rer), rule, "%s: exception re-raised" % q.fn(fex), "bare raise in the handler",
+                   "the task's exception is swallowed by execute (the worker cannot log it; callers see no failure)", q.loc(fex, n))
